@@ -1,6 +1,6 @@
 (* C17 - orthogonal wavelets with periodization give an orthogonal transform (line level; the model computes these
    closed forms by C01_level_row_per and C10_level_per_row under the same guard: even length >= filter length). *)
-From PW Require Import Base.Ops Base.Sum Base.Sig Spec.Line Proofs.LineTheory.
+From PW Require Import Base.Ops Base.Sum Base.Sig Spec.Line Proofs.LineTheory Proofs.CircPR.
 
 (* the circular synthesis with the analysis filters is the transpose of the circular analysis *)
 Theorem C17_inverse_is_transpose :
@@ -18,6 +18,31 @@ Theorem C17_inner_from_pr :
   = dot Op N x y.
 Proof. exact @inner_preserved. Qed.
 Print Assumptions C17_inner_from_pr.
+
+(* with the filter-only kernel condition on the registered pair (orthogonal bank: synthesis filters = registered analysis filters)
+   nothing else is assumed: the circular transform preserves inner products - and energy, y := x - for EVERY even length *)
+Theorem C17_orthogonal :
+  forall (R:Type) (Op:Ops R) (Rth:RingOk Op) (L N:Z) (h0 h1 x y:Z->R), 2 <= L -> L mod 2 = 0 -> 0 < N -> N mod 2 = 0 ->
+  PRcond Op L (rev_filt L h0) (rev_filt L h1) h0 h1 ->
+  radd Op (dot Op (N/2) (ana_per Op L N h0 x) (ana_per Op L N h0 y)) (dot Op (N/2) (ana_per Op L N h1 x) (ana_per Op L N h1 y))
+  = dot Op N x y.
+Proof. exact @inner_preserved_orth. Qed.
+Print Assumptions C17_orthogonal.
+(* and the inverse of that transform is its transpose *)
+Theorem C17_inverse_reconstructs :
+  forall (R:Type) (Op:Ops R) (Rth:RingOk Op) (L N:Z) (h0 h1 x:Z->R) i, 2 <= L -> L mod 2 = 0 -> 0 < N -> N mod 2 = 0 ->
+  PRcond Op L (rev_filt L h0) (rev_filt L h1) h0 h1 -> 0 <= i < N ->
+  syn_per Op L (N/2) h0 h1 (ana_per Op L N (rev_filt L (rev_filt L h0)) x) (ana_per Op L N (rev_filt L (rev_filt L h1)) x) i = x i.
+Proof. intros. apply circ_pr; assumption. Qed.
+Print Assumptions C17_inverse_reconstructs.
+(* non-vacuity of the kernel condition for an orthogonal integer bank: the lazy bank h0 = (1,0), h1 = (0,1) *)
+Example C17_PRcond_lazy :
+  let h0 := fun m:Z => if m =? 0 then 1 else 0 in let h1 := fun m:Z => if m =? 0 then 0 else 1 in
+  PRcond ZOps 2 (rev_filt 2 h0) (rev_filt 2 h1) h0 h1.
+Proof.
+  intros h0 h1 p d Hp Hd. assert (Hp': p = 0 \/ p = 1) by lia. assert (Hd': d = -1 \/ d = 0 \/ d = 1) by lia.
+  destruct Hp' as [->| ->]; destruct Hd' as [->|[->| ->]]; vm_compute; reflexivity.
+Qed.
 
 (* non-vacuity: unnormalised Haar over Z, N = 4: <Ax,Ay> = 2 <x,y> (orthogonal up to the factor 2 of integer Haar) *)
 Example C17_haar :
